@@ -14,7 +14,7 @@ PROPS = {
     "C09": [r6.rule_R6_debug, r5.rule_setters, r12.rule_R12, r15.rule_R15, c10.rule_fixpoints, r20.rule_R20, r21.rule_R21_dedupe, r22.rule_R22_context, r22.rule_R22_lookahead],
     "C10": [r20.rule_R20_symbols, c10.rule_code_table, c10.rule_fixpoints, r5.rule_undefined_typestate, r2e.rule_R2e, r5.rule_parse_entry],
     "C11": [c11.rule_implicit_codes, c11.rule_declaration_merge, c11.rule_lexer_discipline, c11.rule_costs_and_replay, lexer.rule_R4b, r4.rule_R4a, r14.rule_R14],
-    "C12": [r14.rule_R14, r12.rule_R12, r4.rule_R4a, lexer.rule_R4b, r4.rule_R4c, r4.rule_R4d, r5.rule_setters, r3.rule_R3c, c10.rule_code_table, c10.rule_fixpoints, r16.rule_index_spaces, r16.rule_pl_capacity, r16.rule_total_loss, r7.rule_first_ignored, r21.rule_R21, r4.rule_R4e, c03.rule_copy_consistency],
+    "C12": [r14.rule_R14, r12.rule_R12, r4.rule_R4a, lexer.rule_R4b, r4.rule_R4c, r4.rule_R4d, r5.rule_setters, r3.rule_R3c, c10.rule_code_table, c10.rule_fixpoints, r16.rule_index_spaces, r16.rule_parallel_arrays, r16.rule_pl_capacity, r16.rule_total_loss, r7.rule_first_ignored, r21.rule_R21, r4.rule_R4e, c03.rule_copy_consistency],
     "C13": [r13.rule_births, r13.rule_T4, r13.rule_release_nonnull, r13.rule_collect, r13.rule_compaction, r13.rule_R13_dedupe, r13.rule_R13_marks, r11.rule_R11_switch, r11.rule_R11_sweep, r5.rule_parse_entry, r12.rule_R1c, r7.rule_T1],
     "C14": [r25.rule_R25, r25.rule_R25_cxx, r4.rule_R4e, r3.rule_R3e, r1.rule_R1a, r1.rule_R1b, r12.rule_R1c, r12.rule_R12, r2e.rule_R2e, r5.rule_undefined_typestate],
     "C15": [r5.rule_defaults, r5.rule_setters, r5.rule_parse_entry, r5.rule_token_intake, r5.rule_undefined_typestate, r3.rule_R3d, r1.rule_R1a, r4.rule_R4c, r4.rule_R4d],
